@@ -399,6 +399,63 @@ Proof.
   rewrite <- Hr at 1. apply template_subst_short; assumption.
 Qed.
 
+(* ---------------------------------------------------------------- freshness *)
+(* The value model has no object identities, so "every evaluation builds new arrays, hashes and
+   lists" is stated on the code: the only literals the generated code pushes are atoms and the
+   empty list; every list, array and hash of the result is therefore built at run time by
+   Squash / Vectorize / Hashize (or comes out of an unquoted expression). *)
+Definition push_plain (i : instr) : bool :=
+  match i with IPush v => plain v | _ => true end.
+
+Lemma wrap_in : forall c i, In i (wrap c) -> In i c \/ push_plain i = true.
+Proof.
+  intros c i H. unfold wrap in H. destruct H as [<-|H]; [right; reflexivity|].
+  apply in_app_or in H. destruct H as [H|[<-|[<-|[]]]]; auto.
+Qed.
+
+Theorem gen_pushes_only_atoms : forall t,
+    wf t = true -> forall i, In i (gen_sq (reify t)) -> push_plain i = true.
+Proof.
+  induction t as [v|e|e|l IH|l IH|tn kv IH] using tmpl_ind'; intros Hwf i Hi.
+  - destruct v as [| | | |l| |]; simpl in Hwf; try discriminate;
+      try (destruct Hi as [<-|[]]; reflexivity).
+    destruct l; [|discriminate]. destruct Hi as [<-|[]]; reflexivity.
+  - simpl in Hi. destruct Hi as [<-|[]]; reflexivity.
+  - simpl in Hi. destruct Hi as [<-|[<-|[]]]; reflexivity.
+  - cbn [wf] in Hwf. apply andb_prop in Hwf. destruct Hwf as [Hu Hall].
+    cbn [reify] in Hi.
+    rewrite unq_form_None_gen in Hi by (destruct (unq_form (map reify l)); [discriminate|reflexivity]).
+    destruct l as [|t0 l0]; [destruct Hi as [<-|[]]; reflexivity|].
+    cbn [map] in Hi. change (reify t0 :: map reify l0) with (map reify (t0 :: l0)) in Hi.
+    remember (t0 :: l0) as l eqn:El. clear El t0 l0.
+    destruct Hi as [<-|Hi]; [reflexivity|]. apply in_app_or in Hi.
+    destruct Hi as [Hi|[<-|[]]]; [|reflexivity].
+    apply in_flat_map in Hi. destruct Hi as [x [Hx Hi]]. apply in_map_iff in Hx.
+    destruct Hx as [t [<- Ht]]. rewrite forallb_forall in Hall. rewrite Forall_forall in IH.
+    apply (IH t Ht); auto.
+  - cbn [wf] in Hwf. cbn [reify gen_sq] in Hi.
+    destruct Hi as [<-|Hi]; [reflexivity|]. apply in_app_or in Hi.
+    destruct Hi as [Hi|[<-|[]]]; [|reflexivity].
+    apply in_flat_map in Hi. destruct Hi as [x [Hx Hi]]. apply in_map_iff in Hx.
+    destruct Hx as [t [<- Ht]]. rewrite forallb_forall in Hwf. rewrite Forall_forall in IH.
+    apply wrap_in in Hi. destruct Hi as [Hi|Hi]; [|assumption]. apply (IH t Ht); auto.
+  - cbn [wf] in Hwf. cbn [reify gen_sq] in Hi.
+    destruct Hi as [<-|Hi]; [reflexivity|]. apply in_app_or in Hi.
+    destruct Hi as [Hi|[<-|[]]]; [|reflexivity].
+    apply in_concat in Hi. destruct Hi as [c [Hc Hi]]. apply in_rev in Hc.
+    apply in_map_iff in Hc. destruct Hc as [q [<- Hq]]. apply in_map_iff in Hq.
+    destruct Hq as [p [<- Hp]]. cbn [fst snd] in Hi.
+    rewrite forallb_forall in Hwf. rewrite Forall_forall in IH.
+    specialize (Hwf p Hp). apply andb_prop in Hwf. destruct Hwf as [Hwk Hwv].
+    destruct (IH p Hp) as [IHk IHv].
+    apply in_app_or in Hi. destruct Hi as [Hi|Hi]; apply wrap_in in Hi;
+      destruct Hi as [Hi|Hi]; auto.
+Qed.
+
+Theorem template_fresh : forall t,
+    wf t = true -> forallb push_plain (gen_sq (reify t)) = true.
+Proof. intros t H. apply forallb_forall. apply gen_pushes_only_atoms. assumption. Qed.
+
 (* ---------------------------------------------------------------- the hash order defect *)
 Definition refute_rho : value -> option value := fun _ => Some (VList [VInt 1; VInt 2; VInt 3]).
 Definition refute_t : tmpl := THash 9 [(TLit (VSym 5), TSpl (VSym 6))].
